@@ -172,9 +172,19 @@ func decode(pt *ptype, b []byte) (q interface{}, consumed int, msg string) {
 
 // lazily decoded sections: looking at them changes the representation, not the content
 func prep(p interface{}) bool {
-	if g, ok := p.(*pack.StatGeneralPack); ok {
+	switch g := p.(type) {
+	case *pack.StatGeneralPack:
 		g.GetDataTable()
 		return true
+	case *pack.CompositePack: // its inner packs
+		any := false
+		f := expose(reflect.ValueOf(g).Elem().FieldByName("pack"))
+		for i := 0; i < f.Len(); i++ {
+			if !f.Index(i).IsNil() && prep(f.Index(i).Interface()) {
+				any = true
+			}
+		}
+		return any
 	}
 	return false
 }
@@ -582,7 +592,7 @@ func packHistory(c *core.Ctx, t *core.Trace, kind string, cas int, r *rand.Rand)
 		setHeaderForm(r, zp)
 		msg = core.Guard(func() {
 			zp.SetRecords(items)
-			if r.Intn(2) == 0 { // what the log-sink sender does before sending (ZipSendProxyThread.doZip)
+			if len(zp.Records) > 0 && r.Intn(2) == 0 { // what the log-sink sender does before sending a non-empty buffer (ZipSendProxyThread.doZip)
 				min := []int{0, len(zp.Records), len(zp.Records) + 1}[r.Intn(3)]
 				ev["minsize"] = min
 				if zp.Status == 0 && len(zp.Records) >= min {
